@@ -1,7 +1,7 @@
 #!/bin/bash
 # refkeep.sh <Cxx> <K> <name> <also-props,comma|-> <initially: silent|alarm> — keep a behaviour-preserving refactoring written by an independent
 # sub-agent as /verif/refactor/<name>/{patch.diff,AUTHOR_README.md,meta.json}; the self-test expects every listed property to stay silent.
-P=$1; K=$2; NAME=$3; ALSO=$4; INIT=$5; D=/tmp/refac/$P.out/$K; T=/verif/refactor/$NAME
+P=$1; K=$2; NAME=$3; ALSO=$4; INIT=$5; D=${REFDIR:-/tmp/refac}/$P.out/$K; T=/verif/refactor/$NAME
 mkdir -p $T; cp $D/patch.diff $T/patch.diff; cp $D/README.md $T/AUTHOR_README.md
 python3 - "$T" "$P" "$ALSO" "$INIT" <<'PY'
 import json,sys
